@@ -494,7 +494,7 @@ func RunCase(cs Case, trace func(any)) Result {
 		}
 		// a stream that stays charged (pending events, no processor) without being
 		// served while some processor is idle: "a processor asleep while work is queued"
-		if tick != lastStarveSample || time.Since(lastStarveWall) > 20*time.Millisecond {
+		if cs.StopAfterMs == 0 && (tick != lastStarveSample || time.Since(lastStarveWall) > 20*time.Millisecond) {
 			lastStarveSample, lastStarveWall = tick, time.Now()
 			idle := p.VerifActiveProcs() < p.VerifProcCount()
 			seenNow := map[string]bool{}
